@@ -27,6 +27,7 @@ type enumOutcome struct {
 	labels []string          // other branch decisions taken, e.g. "TagOrNil==nil"
 	roles  map[string]int64  // operand role -> abstract value of the recursive answer
 	result int64             // returned enum value
+	unknownResult bool       // lenient mode: the returned value is not a constant on this path
 	isBool bool              // result is a boolean (0/1) rather than an enum value
 	pos    token.Pos
 }
@@ -37,6 +38,8 @@ type enumCfg struct {
 	domain     []int64                                // values of the enum
 	opConsts   map[int64]string                       // operator code -> name
 	opField    string                                 // name of the operator field on the node ("Op")
+	opParamPath []string                              // alternatively: the compared enum is <param0>.<path...> (e.g. p.lexer.Token)
+	lenient    bool                                   // unknown branch conditions fork (labelled "?"), unknown results are recorded with unknownResult
 	maxPaths   int
 }
 
@@ -281,11 +284,11 @@ func (e *enumEvaluator) finish(x *ssa.Return, s *enumState) {
 		return
 	}
 	val, ok := e.eval(s, x.Results[0])
-	if !ok {
+	if !ok && !e.cfg.lenient {
 		e.problem(x.Pos(), "returned value %s is not an enum constant or a recursive answer on the path kind=%s op=%s", x.Results[0].Name(), s.kind, s.op)
 		return
 	}
-	o := enumOutcome{kind: s.kind, op: s.op, labels: append([]string{}, s.labels...), roles: map[string]int64{}, result: val, pos: x.Pos()}
+	o := enumOutcome{unknownResult: !ok, kind: s.kind, op: s.op, labels: append([]string{}, s.labels...), roles: map[string]int64{}, result: val, pos: x.Pos()}
 	if bt, ok := x.Results[0].Type().Underlying().(*types.Basic); ok && bt.Info()&types.IsBoolean != 0 {
 		o.isBool = true
 	}
@@ -327,9 +330,13 @@ func (e *enumEvaluator) branch(b *ssa.BasicBlock, x *ssa.If, s *enumState, depth
 	}
 	// operator comparison?
 	if bo, ok := x.Cond.(*ssa.BinOp); ok && (bo.Op == token.EQL || bo.Op == token.NEQ) {
-		if cv, ok := constInt(bo.Y); ok && s.kindVal != nil {
+		if cv, ok := constInt(bo.Y); ok && (s.kindVal != nil || e.cfg.opParamPath != nil) {
 			root, path := purePath(bo.X)
-			if root == s.kindVal && len(path) == 1 && path[0] == e.cfg.opField {
+			isOp := s.kindVal != nil && root == s.kindVal && len(path) == 1 && path[0] == e.cfg.opField
+			if e.cfg.opParamPath != nil && len(e.fn.Params) > 0 && root == ssa.Value(e.fn.Params[0]) && strings.Join(path, ".") == strings.Join(e.cfg.opParamPath, ".") {
+				isOp = true
+			}
+			if isOp {
 				name, known := e.cfg.opConsts[cv]
 				if !known {
 					name = fmt.Sprintf("op#%d", cv)
@@ -379,6 +386,15 @@ func (e *enumEvaluator) branch(b *ssa.BasicBlock, x *ssa.If, s *enumState, depth
 			e.run(b.Succs[neSucc], b, f, depth+1)
 			return
 		}
+	}
+	if e.cfg.lenient {
+		t := s.clone()
+		f := s.clone()
+		t.labels = append(t.labels, "?")
+		f.labels = append(f.labels, "?")
+		e.run(b.Succs[0], b, t, depth+1)
+		e.run(b.Succs[1], b, f, depth+1)
+		return
 	}
 	e.problem(x.Pos(), "branch condition %s is neither a type test, an operator comparison, a nil test nor a comparison of enum values (path kind=%s op=%s)", x.Cond.String(), s.kind, s.op)
 }
